@@ -416,6 +416,83 @@ fn kernels() -> Vec<Kernel> {
 // ---------------------------------------------------------------------------------------------
 // Input generation (deterministic from seed, kernel index and case index)
 
+/// key-generation seeds with rare sampler events (corpus/xof_extremes, found by an offline SHAKE-only search): in
+/// test mode the samplers must take the same path for them as for any other seed
+fn rare_seeds(set: u32) -> &'static [[u8; 32]] {
+    static C: std::sync::OnceLock<Vec<(u32, [u8; 32])>> = std::sync::OnceLock::new();
+    let all = C.get_or_init(|| {
+        let root = std::env::var("VERIF_ROOT").unwrap_or_else(|_| "/verif".to_string());
+        let mut out = Vec::new();
+        for s in [44u32, 65, 87] {
+            if let Ok(t) = std::fs::read_to_string(format!("{root}/corpus/xof_extremes/set{s}.json")) {
+                if let Ok(Value::Array(a)) = serde_json::from_str::<Value>(&t) {
+                    for e in a {
+                        if let Some(Ok(b)) = e["xi"].as_str().map(hex::decode) {
+                            if b.len() == 32 {
+                                out.push((s, core::array::from_fn(|i| b[i])));
+                            }
+                        }
+                    }
+                }
+            }
+        }
+        out
+    });
+    static PER: std::sync::OnceLock<std::collections::HashMap<u32, Vec<[u8; 32]>>> = std::sync::OnceLock::new();
+    PER.get_or_init(|| {
+        let mut m: std::collections::HashMap<u32, Vec<[u8; 32]>> = std::collections::HashMap::new();
+        for (s, x) in all {
+            m.entry(*s).or_default().push(*x);
+        }
+        m
+    })
+    .get(&set)
+    .map(Vec::as_slice)
+    .unwrap_or(&[])
+}
+
+/// in-range polynomial whose forward NTT (lazy reduction) grows by about q/2 in every layer at output position 0:
+/// the largest intermediate values an in-range input can produce (z[0] and z[2^k] only)
+fn ntt_max_growth(bound: i64, negative: bool) -> [i32; 256] {
+    let q = i64::from(Q);
+    let pow = |mut b: i64, mut e: u64| -> i64 {
+        let mut r = 1i64;
+        b %= q;
+        while e > 0 {
+            if e & 1 == 1 {
+                r = r * b % q;
+            }
+            b = b * b % q;
+            e >>= 1;
+        }
+        r
+    };
+    let brv = |x: usize| -> u64 { (x as u8).reverse_bits() as u64 };
+    let s: i64 = if negative { -1 } else { 1 };
+    let mut z = [0i32; 256];
+    z[0] = (s * bound) as i32;
+    let (mut len, mut m) = (128usize, 1usize);
+    while len >= 1 {
+        let zeta = pow(1753, brv(m));
+        let zinv = pow(zeta, (q - 2) as u64);
+        let mut r = s * (q - 1) / 2;
+        loop {
+            let mut v = r.rem_euclid(q) * zinv % q;
+            if v > q / 2 {
+                v -= q;
+            }
+            if v.abs() <= bound {
+                z[len] = v as i32;
+                break;
+            }
+            r -= s;
+        }
+        len /= 2;
+        m *= 2;
+    }
+    z
+}
+
 fn gen_inputs(k: &Kernel, seed: u64, kidx: usize, case: u64) -> (Vec<i32>, Vec<u8>, &'static str) {
     let mut s = [0u8; 32];
     s[..8].copy_from_slice(&seed.to_le_bytes());
@@ -427,6 +504,21 @@ fn gen_inputs(k: &Kernel, seed: u64, kidx: usize, case: u64) -> (Vec<i32>, Vec<u
     let class = if case == 0 { 0 } else { 1 + (case - 1) % 8 };
     let mut ints = vec![0i32; k.n_i32];
     let mut bytes = vec![0u8; k.n_u8];
+    // whole-pipeline kernels: the first cases use the rare-sampler corpus seeds as the generator's first 32 bytes
+    if k.name.starts_with("pipeline") && case >= 1 {
+        let rare = rare_seeds(k.set);
+        if (case as usize) <= rare.len() && k.n_u8 >= 32 {
+            r.fill_bytes(&mut bytes);
+            bytes[..32].copy_from_slice(&rare[case as usize - 1]);
+            return (ints, bytes, "rare-sampler seed (corpus)");
+        }
+    }
+    // transforms: every 40th case is the aligned maximal-growth polynomial for the kernel's range
+    if k.name.starts_with("ntt(") && k.n_i32 >= 256 && case % 40 == 39 {
+        let z = ntt_max_growth(i64::from(k.hi.min(-k.lo)).max(1), (case / 40) % 2 == 1);
+        ints[..256].copy_from_slice(&z);
+        return (ints, bytes, "aligned maximal growth");
+    }
     let cname = match class {
         0 | 1 => {
             ints.iter_mut().for_each(|x| *x = uni(&mut r));
